@@ -499,7 +499,10 @@ Inductive rt_case := EncCase (k : enc_case) | DecCase (k : dec_case) | DecHCase 
                    | WfCase (k : ty * val)         (* a real loaded value satisfies the premise of c19_roundtrip_full *)
                    (* the real marshaler ran on a directory holding the files `stale` with items named `names` (in order):
                       `listing` is what ioutil.ReadDir returns afterwards *)
-                   | DirCase (router : bool) (stale names listing : list string).
+                   | DirCase (router : bool) (stale names listing : list string)
+                   (* time.Duration.String of a nanosecond count; time.ParseDuration of a text (None: rejected) *)
+                   | DurFmt (ns : Z) (text : string)
+                   | DurCase (text : string) (ns : option Z).
 
 
 
@@ -578,6 +581,12 @@ Definition rt_case_ok (k : rt_case) : bool :=
   | FileCase router name fname =>
     String.eqb (file_name src_max_file_path (if router then src_fname_ops_router else src_fname_ops_cluster) name) fname
   | DirCase router stale names lst => dir_case_ok router stale names lst
+  | DurFmt ns text => String.eqb (fmt_duration ns) text
+  | DurCase text ns => match parse_duration text, ns with
+                       | Some a, Some b => Z.eqb a b
+                       | None, None => true
+                       | _, _ => false
+                       end
   end.
 
 Fixpoint mismatches_from {A} (ok : A -> bool) (i : nat) (l : list A) : list nat :=
